@@ -17,7 +17,10 @@
    that is left is fed back ("@file" as the only input) and a second real run records which scenarios are entered.
 Every second pair row and two of three synth rows are rendered with prog["dupnames"] (all scenarios share one name), so
 the feed-back must select by location, never by name; every second multi-feature row with prog["revfiles"] (run order of
-the files differs from the alphabetical order of their names; the judge takes the run order from the recorded call-outs).  All multiprocessing Pools are finished before TLC is started.
+the files differs from the alphabetical order of their names; the judge takes the run order from the recorded call-outs).
+Every third pair row and every fourth synth row carries @setup / @teardown tags at feature, rule or scenario level (only a
+scenario's OWN tags exempt it from skipping), another third / fourth lives in a directory whose name has a colon, blanks,
+@, # or a dot-digit suffix (pair: list file and features in it; synth: the relative paths in the rerun file contain it).  All multiprocessing Pools are finished before TLC is started.
 TLC (Rerun_Trace) judges all rows: which scenarios are unsuccessful is computed there from the recorded final
 statuses.  Python renders, runs, records."""
 import io
@@ -43,7 +46,43 @@ ERRORISH = ("error", "pending", "undefined", "kbd", "badarg")
 
 # ------------------------------------------------------------------------------------------------ row pieces
 def slim_prog(flat):
-    return [{"kind": e["kind"], "parent": e["parent"], "children": e["children"]} for e in flat["elems"]]
+    return [{"kind": e["kind"], "parent": e["parent"], "children": e["children"], "tags": list(e["tags"])} for e in flat["elems"]]
+
+
+# legal oddities in the directory part of a feature path: colon, blanks, @, #, dot-digit suffix.  (No leading `#`: such a
+# line of a list file is a comment; no glob characters: list files expand them.)
+ODD_DIRS = ["rel:2.0", "my features", "team@home", "x#5 smoke", "v2.0", "a:b c@d #e v1.0", "rel:2", os.path.join("rel:2.0", "sub dir")]
+
+
+def odd_dir(k):
+    return ODD_DIRS[(k - 1) % len(ODD_DIRS)] if k else ""
+
+
+def tagged(prog, v):
+    """copy of the program with @setup / @teardown tags: v=1 first feature @setup (inherited: not exempt); v=2 first rule
+    (else last feature) @teardown; v=3 every second scenario / outline itself @setup (exempt from skipping);
+    v=4 first feature @teardown and the last item of every feature @setup"""
+    p = json.loads(json.dumps(prog))
+    if not v:
+        return p
+    if v in (1, 4):
+        p["features"][0]["tags"].append("setup" if v == 1 else "teardown")
+    if v == 2:
+        rules = [it for f in p["features"] for it in f["items"] if it["kind"] == "rule"]
+        (rules[0] if rules else p["features"][-1])["tags"].append("teardown")
+    if v == 3:
+        n = 0
+        for f in p["features"]:
+            for it in f["items"]:
+                for x in (it["items"] if it["kind"] == "rule" else [it]):
+                    if n % 2 == 0:
+                        x["tags"].append("setup")
+                    n += 1
+    if v == 4:
+        for f in p["features"]:
+            last = f["items"][-1]
+            (last["items"][-1] if last["kind"] == "rule" else last)["tags"].append("setup")
+    return p
 
 
 def tables(flat, R):
@@ -132,9 +171,11 @@ def feed_back(scratch, R, second_run=True):
         root.setLevel(saved_level)
 
 
-def write_features(scratch, R):
+def write_features(scratch, R, names=None):
     for fn, text in R.files:
-        with open(os.path.join(scratch, fn), "w", encoding="utf-8") as fh:
+        path = os.path.join(scratch, (names or {}).get(fn, fn))
+        os.makedirs(os.path.dirname(path), exist_ok=True)
+        with open(path, "w", encoding="utf-8") as fh:
             fh.write(text)
 
 
@@ -145,8 +186,9 @@ def pair_case(job):
     try:
         flat = job["flat"]
         R = Rendered(job["prog"], flat)
-        write_features(scratch, R)
-        path = os.path.join(scratch, "rerun.txt")
+        base = os.path.join(scratch, odd_dir(job.get("oddpath", 0)))     # list file and features in an oddly named directory
+        write_features(base, R)
+        path = os.path.join(base, "rerun.txt")
         with open(path, "w", encoding="utf-8") as fh:
             fh.write(PLANTED)
         case = dict(job, extra_args=["-f", "rerun", "-o", path])
@@ -156,7 +198,7 @@ def pair_case(job):
         file = RP.read_file(path, R, planted=PLANTED)
         loop = dict(NO_LOOP)
         if file["exists"] and not file["stale"]:
-            loop = feed_back(scratch, R)
+            loop = feed_back(base, R)
         return {"key": job["key"], "row": make_row(0, "pair", flat, R, job["cfg"]["dry"], end["ran"] and not end["escaped"], end["status"],
                                                    calls_of(row["events"]), True, file, loop),
                 "raw": file["raw"], "escaped": end["escaped"]}
@@ -203,15 +245,20 @@ def synth_case(job):
             prog["dupnames"] = True
         if job.get("revfiles"):
             prog["revfiles"] = True
+        prog = tagged(prog, job.get("tagv", 0))
         flat = G.flatten(prog)
         if [e["kind"] for e in flat["elems"]] != case["kinds"] or [e["parent"] for e in flat["elems"]] != case["parents"]:
             raise RuntimeError("element table of the emitted shape and of gen.flatten differ")
         R = Rendered(prog, flat)
-        write_features(scratch, R)
+        # odd relative paths: the first feature file (every file when the index is even) lives in an oddly named directory
+        # below the list file, so the rerun file itself names `rel:2.0/f0.feature:3`
+        k = job.get("oddpath", 0)
+        names = {fn: (os.path.join(odd_dir(k), fn) if k and (n == 0 or k % 2 == 0) else fn) for n, (fn, _t) in enumerate(R.files)}
+        write_features(scratch, R, names)
         path = os.path.join(scratch, "rerun.txt")
         with open(path, "w", encoding="utf-8") as fh:
             fh.write(PLANTED)
-        feats = [parse_feature(text, filename=fn) for fn, text in R.files]
+        feats = [parse_feature(text, filename=names[fn]) for fn, text in R.files]
         fidx = {fn: i for i, (fn, _t) in enumerate(R.files)}
         objs = {}
 
@@ -258,7 +305,7 @@ def synth_case(job):
         if file["exists"] != pred["exists"] or [[x["f"], x["l"]] for x in file["lines"]] != \
                 [[x["f"], R.line_of[_el_at(case, x)]] for x in pred["lines"]]:
             diffs.append("file spec %s impl %s" % (pred["lines"], file["lines"]))
-        if loop["done"] and not loop["exc"] and loop["sel"] != [i + 1 for i, b in enumerate(pred["sel"]) if b]:
+        if not job.get("tagv") and loop["done"] and not loop["exc"] and loop["sel"] != [i + 1 for i, b in enumerate(pred["sel"]) if b]:
             diffs.append("selection spec %s impl %s" % (pred["sel"], loop["sel"]))
         return {"key": job["key"], "row": make_row(0, "synth", flat, R, False, True, status, calls, True, file, loop),
                 "raw": file["raw"], "escaped": "", "diffs": diffs}
@@ -355,6 +402,7 @@ def describe(meta, row):
         d["show_skipped"] = meta["show"]
         d["dupnames"] = meta.get("dupnames", False)
         d["revfiles"] = meta.get("revfiles", False)
+        d["tagv"], d["oddpath"] = meta.get("tagv", 0), odd_dir(meta.get("oddpath", 0))
     return json.dumps(d, sort_keys=True)
 
 
@@ -366,9 +414,9 @@ def judge(chk, rows, metas):
         for v in vs:
             meta, row = metas[rid], byid[rid]
             payload = {"kind": row["kind"], "show": meta.get("show", True), "dupnames": meta.get("dupnames", False),
-                       "revfiles": meta.get("revfiles", False)}
+                       "revfiles": meta.get("revfiles", False), "tagv": meta.get("tagv", 0), "oddpath": meta.get("oddpath", 0)}
             if "job" in meta:
-                payload["job"] = {k: meta["job"][k] for k in ("key", "prog", "cfg", "fault", "fault_kind")}
+                payload["job"] = {k: meta["job"][k] for k in ("key", "prog", "cfg", "fault", "fault_kind", "oddpath") if k in meta["job"]}
             else:
                 payload["case"] = meta["case"]
             chk.violation(v[2].split("/")[0], signature(v) + "|%s" % row["kind"] if "/" not in v[2] else signature(v),
@@ -405,7 +453,17 @@ def run(chk):
         return dict(j, prog=dict(j["prog"], **extra)) if extra else j
     rjobs = [dict(variant(j, False, n % 2 == 0), reports=True, plugins=["c17"]) for n, j in enumerate(jobs)]
     run_out = stage.drive_all(rjobs, procs=PROCS)
-    pjobs = [variant(j, n % 2 == 0, (n // 2) % 2 == 0) for n, j in enumerate(jobs)]
+    # Every third pair row carries @setup / @teardown tags (feature, rule or scenario level), every third lives in an oddly
+    # named directory (colon, blanks, @, #, dot-digit suffix).
+    def pvariant(n, j):
+        j = variant(j, n % 2 == 0, (n // 2) % 2 == 0)
+        if n % 3 == 0:
+            p = tagged(j["prog"], 1 + (n // 3) % 4)
+            j = dict(j, prog=p, flat=G.flatten(p))
+        if n % 3 == 1:
+            j = dict(j, oddpath=1 + (n // 3) % len(ODD_DIRS))
+        return j
+    pjobs = [pvariant(n, j) for n, j in enumerate(jobs)]
     pair_out = pmap(pair_case, pjobs)
     # 1. design level
     r = chk.tlc("Rerun_MC", "Rerun_MC_quick.cfg" if quick else "Rerun_MC_thorough.cfg", timeout=3000,
@@ -427,9 +485,12 @@ def run(chk):
     for c in small + rest:
         dup = len(sjobs) % 3 != 0                  # two of three models: every scenario has the same name
         rev = len(c["sh"]) > 1 and (len(sjobs) // 3) % 2 == 0     # every second two-feature model: files f1, f0
-        sjobs.append({"key": ["synth", len(sjobs)], "case": c, "show": True, "dupnames": dup, "revfiles": rev})
+        n = len(sjobs)
+        opts = {"dupnames": dup, "revfiles": rev, "tagv": 1 + (n // 4) % 4 if n % 4 == 1 else 0,
+                "oddpath": 1 + (n // 4) % len(ODD_DIRS) if n % 4 == 2 else 0}
+        sjobs.append(dict({"key": ["synth", len(sjobs)], "case": c, "show": True}, **opts))
         if c["hidden"]["ann"] != c["shown"]["ann"]:
-            sjobs.append({"key": ["synth", len(sjobs)], "case": c, "show": False, "dupnames": dup, "revfiles": rev})
+            sjobs.append(dict({"key": ["synth", len(sjobs)], "case": c, "show": False}, **opts))
     synth_out = pmap(synth_case, sjobs)
     for o in run_out + pair_out + synth_out:
         if "driver_error" in o:
@@ -456,7 +517,8 @@ def run(chk):
     for job, o in zip(sjobs, synth_out):
         rid = len(rows) + 1
         rows.append(dict(o["row"], id=rid))
-        metas[rid] = {"case": job["case"], "show": job["show"], "dupnames": job["dupnames"], "revfiles": job["revfiles"], "raw": o["raw"]}
+        metas[rid] = {"case": job["case"], "show": job["show"], "dupnames": job["dupnames"], "revfiles": job["revfiles"],
+                      "tagv": job["tagv"], "oddpath": job["oddpath"], "raw": o["raw"]}
         if o["diffs"]:
             sdiv.append({"row": rid, "model": {k: job["case"][k] for k in ("sh", "ss", "hk")}, "diff": o["diffs"][:2]})
     verdicts = judge(chk, rows, metas)
@@ -478,6 +540,11 @@ def run(chk):
     chk.extra["rows_with_feed_back"] = sum(1 for x in rows if x["loop"]["done"])
     chk.extra["rows_with_second_run"] = sum(1 for x in rows if x["loop"]["ran2done"])
     chk.extra["rows_not_judged_run_died"] = not_judged
+    fbrows = [x for x in rows if x["loop"]["done"]]
+    chk.extra["feed_back_rows_in_oddly_named_directories"] = sum(
+        1 for x in fbrows if metas[x["id"]].get("oddpath") or metas[x["id"]].get("job", {}).get("oddpath"))
+    chk.extra["feed_back_rows_with_setup_teardown_tags"] = sum(
+        1 for x in fbrows if any(t in ("setup", "teardown") for e in x["prog"] for t in e["tags"]))
     chk.extra["multi_file_rows_with_file_and_reversed_file_names"] = sum(
         1 for x in with_file if len({l["f"] for l in x["file"]["lines"]}) > 1 and
         (metas[x["id"]].get("revfiles") or metas[x["id"]].get("job", {}).get("prog", {}).get("revfiles")))
@@ -512,7 +579,7 @@ def replay(chk, payload):
     rows, metas = [], {}
     if rp["kind"] == "synth":
         o = synth_case({"key": ["replay"], "case": rp["case"], "show": rp.get("show", True), "dupnames": rp.get("dupnames", False),
-                        "revfiles": rp.get("revfiles", False)})
+                        "revfiles": rp.get("revfiles", False), "tagv": rp.get("tagv", 0), "oddpath": rp.get("oddpath", 0)})
         if "driver_error" in o:
             raise RuntimeError(o["driver_error"])
         rows.append(dict(o["row"], id=1))
